@@ -391,6 +391,7 @@ impl Check for C06Check {
             Phase::exhaustive("operator-triples", r * r * r * 2).with_chunk(4096),
             Phase::random("token-soups", tier.pick(80_000, 3_000_000), 120).with_min_tape(6).with_chunk(1024),
             Phase::random("random-deep-expressions", tier.pick(120_000, 3_000_000), 96).with_min_tape(16).with_chunk(2048),
+            Phase::exhaustive("statement-blocks", block_string_count(tier.pick(7, 8))).with_chunk(16384),
         ]
     }
     fn run(&self, tier: Tier, phase: usize, input: &Input, ctx: &mut CaseCtx) {
@@ -445,6 +446,9 @@ impl Check for C06Check {
             }
             (5, Input::Tape(t)) => {
                 judge(&c02::random_source(t), ctx, 1000);
+            }
+            (6, Input::Index(i)) => {
+                judge(&block_string(*i, tier.pick(7, 8)), ctx, 300);
             }
             _ => {}
         }
